@@ -61,6 +61,18 @@ def parseCoreOp : List String → Option Op
   | ["nextid"] => some .nextId
   | _ => none
 
+/-- table of rejected edges for `slice_some`: `-` or `from>to>label,…` -/
+def parseRej (s : String) : Option (List (Nat × Nat × Label)) :=
+  if s = "-" then some []
+  else (s.splitOn ",").mapM (fun (t : String) =>
+    match t.splitOn ">" with
+    | [a, b, l] => do
+      let x ← a.toNat?
+      let y ← b.toNat?
+      let lab ← parseLabelTok l
+      pure (x, y, lab)
+    | _ => none)
+
 def showEntry (g : G) (v : Nat) : String :=
   toString v ++ (if pers g v = .empty then "" else "!") ++ showEdges (edg g v)
 
@@ -127,6 +139,34 @@ def execLine2 (w : World) (line : String) : World × String :=
       | some .unmodelled => (w, "unmodelled")
       | none => (w, "bad-op")
     | none => (w, "bad-op")
+  | ["slice", h, v, h', rej] =>
+    match parseHandle h, v.toNat?, parseHandle h', parseRej rej with
+    | some a, some v, some b, some rj =>
+      match w.get a with
+      | some (.live g) =>
+        match sliceSome g v (fun x y l => !rj.contains (x, y, l)) with
+        | some g' => (w.set b (.live g'), "ok ; " ++ showNats (keys g'))
+        | none => (w.set b .dead, "panic")
+      | some .dead => (w.set b .dead, "dead")
+      | some .unmodelled => (w.set b .unmodelled, "unmodelled")
+      | none => (w, "bad-op")
+    | _, _, _, _ => (w, "bad-op")
+  | ["merge", h, h', l, r] =>
+    match parseHandle h, parseHandle h', l.toNat?, r.toNat? with
+    | some a, some b, some l, some r =>
+      match w.get a, w.get b with
+      | some (.live g), some (.live hg) =>
+        match Sodg.merge g hg l r with
+        | none => (w.set a .dead, "panic")
+        | some (g', .ok) => (w.set a (.live g'), "ok ; " ++ showNats (keys g'))
+        | some (g', .err missed) => (w.set a (.live g'), "err " ++ showNats missed ++ " ; " ++ showNats (keys g'))
+        | some (_, .joined) => (w.set a .unmodelled, "unmodelled")
+      | some .dead, _ => (w, "dead")
+      | _, some .dead => (w, "dead")
+      | some .unmodelled, _ => (w, "unmodelled")
+      | some _, some .unmodelled => (w.set a .unmodelled, "unmodelled")
+      | _, _ => (w, "bad-op")
+    | _, _, _, _ => (w, "bad-op")
   | ["save", h] =>
     match (parseHandle h).bind w.get with
     | some (.live g) => (w, "ok " ++ hexOfBytes (Cd.save g))
